@@ -299,13 +299,20 @@ func vSlurpOne(s *LimitedReaderSlurper, limit uint64, data []byte, script []vEv,
 			bytesObs = b
 		}
 	}
-	var alloc uint64
+	var alloc, held uint64
 	nb := 0
 	if errc != 3 {
 		for i := 0; i <= s.lastBuffer; i++ {
 			alloc += uint64(cap(s.buffers[i]))
 		}
 		nb = s.lastBuffer
+		held = s.currentMessageBytesRead // bytes of this message copied into the buffers
+	}
+	if uint64(rd.pos) != held {
+		st["slurp_held_mismatch"]++ // the reader handed out exactly what the slurper counts
+	}
+	if held > limit {
+		st["slurp_held_over_limit"]++
 	}
 	st[fmt.Sprintf("slurp_err_%d", errc)]++
 	var dataT interface{} = 0
@@ -313,7 +320,7 @@ func vSlurpOne(s *LimitedReaderSlurper, limit uint64, data []byte, script []vEv,
 		dataT = data
 	}
 	return vL(limit, len(data), vScriptTerm(script), dataT,
-		vL(errc, size, contentOK, nb, s.remainedUnallocatedSpace, alloc, bytesObs))
+		vL(errc, size, contentOK, nb, s.remainedUnallocatedSpace, alloc, held, bytesObs))
 }
 
 func vAround(rnd *vRand, limit int) int {
@@ -327,6 +334,17 @@ func vAround(rnd *vRand, limit int) int {
 
 func vSlurpCases(out *vOut, rnd *vRand, st map[string]int) {
 	slurp := vSym("slurp")
+	// (0) replay of the Coq witnesses (props/C43.v: C43_literal_limit_refuted,
+	// C43_unlimited_tag_witness) on the real code: a 70 000-byte frame under the 6378-byte
+	// limit of tag SP, and a 6 MiB frame of a tag without a limit
+	{
+		s := MakeLimitedReaderSlurper(averageMessageLength, MaxMessageLength)
+		out.Case(slurp, uint64(averageMessageLength), uint64(MaxMessageLength),
+			vL(vSlurpOne(s, protocol.StateProofSigTag.MaxMessageSize(), vPayload(1, 70000), nil, false, st)))
+		s = MakeLimitedReaderSlurper(averageMessageLength, MaxMessageLength)
+		out.Case(slurp, uint64(averageMessageLength), uint64(MaxMessageLength),
+			vL(vSlurpOne(s, protocol.Tag("zz").MaxMessageSize(), vPayload(2, MaxMessageLength), nil, false, st)))
+	}
 	// (1) small geometries, byte-exact: data included
 	nSmall := vEnvInt("VERIF_C43_SLURP_SMALL", 1500)
 	for c := 0; c < nSmall; c++ {
